@@ -15,7 +15,15 @@ def plan(tier, seed):
             conds.append(Cond("c08-%s-len%d" % (H.OPS[opi][0], vlen), F, "c08", env={"C08_OP": opi, "C08_VLEN": vlen},
                               timeout=280 if q else 3000))
     conds.append(Cond("c08-vacuity", F, "c08", env={"C08_OP": 1, "C08_VLEN": 1}, timeout=90, vacuity=True))
-    meta = dict(functions=["sievelib.managesieve.Client.getscript/deletescript/setactive/havespace/putscript/checkscript/renamescript",
+    wit = []
+    for opi in range(H.NOPS):
+        if H.OPS[opi][0] == "havespace":
+            continue
+        for v in ['a"', "a\\", "{5", "\r\n", "é€", "a\0", "}x"]:
+            cps = [ord(ch) for ch in v] + [0, 0]
+            wit.append(dict(file=F, f="c08", args=dict(c0=cps[0], c1=cps[1], c2=0, other=1, size=0),
+                            env={"C08_OP": opi, "C08_VLEN": len(v)}))
+    meta = dict(witnesses=wit, functions=["sievelib.managesieve.Client.getscript/deletescript/setactive/havespace/putscript/checkscript/renamescript",
                            "__send_command", "__prepare_args", "__prepare_content", "authentication_required"],
                 bounds={"value": "script name (or content) of 0..%d symbolic code points: every Unicode scalar value incl. double quote, "
                                  "backslash, CR, LF, NUL, braces, digits, '+', multi-byte characters" % (2 if q else 3),
